@@ -102,8 +102,11 @@ package gcsemu
 //@   ensures jsonBodies <= old(jsonBodies) + 1   // at most one JSON body: the error envelope; success is a bare 204
 
 // r is a server-side request: net/http guarantees r.Body != nil.
+// C10 "a metadata patch raises metageneration by exactly one": Store.UpdateMeta requires metagen == gcsReadMetagen + 1,
+// the metageneration of the object as GetMeta returned it inside this critical section - not whatever the request body
+// decoded into obj.Metageneration.
 //@ func (g *GcsEmu) handleGcsUpdateMetadataRequest
-//@   property C04 C07 C20
+//@   property C04 C07 C10 C20
 //@   requires w != nil && r != nil && r.Body != nil
 //@   requires !isnil(ctx)
 //@   modifies *, ghost(jsonBodies), ghost(epoch), ghost(gcsValidEpoch), ghost(gcsReadEpoch), ghost(gcsReadObj), ghost(gcsReadMetagen), ghost(lmTick), ghost(lmLastOp), ghost(lmLastId)
